@@ -6,6 +6,7 @@ import json
 import s1
 import tools
 from framework import Issue
+import fam_awaitify_reuse
 from tools import run_async, yields
 from world import asyncstdlib
 from world import UserExc as world_UserExc
@@ -264,6 +265,8 @@ def cases(tier, rng):
     yield from _special_cases()
     yield from _awaitify_cases(tier)
     yield from _reuse_cases()
+    # awaitify wrappers across separate tool calls and failures (Machines/AwaitifyReuse.lean)
+    yield from fam_awaitify_reuse.cases(rng, 1500 if tier == "quick" else 20000)
     yield from _groupby_cases(tier)
     yield from _exitstack_cases(tier)
     n = 0
@@ -390,6 +393,8 @@ def _observe_reuse(case):
 
 
 def observe(case):
+    if case.get("family") == "awaitifyreuse":
+        return fam_awaitify_reuse.observe(case)
     if case.get("family") == "reuse":
         return _observe_reuse(case)
     if case.get("family") == "awaitify":
@@ -425,6 +430,8 @@ def observe(case):
 
 
 def model_request(case):
+    if case.get("family") == "awaitifyreuse":
+        return fam_awaitify_reuse.model_request(case)
     if case.get("family") == "awaitify":
         # for Awaitify a class with awaitable instances is "a callable returning an awaitable" (like obj), a bound async
         # method is a coroutine function (like async def)
@@ -436,6 +443,8 @@ def model_request(case):
 
 def judge(case, obs, model):
     issues = []
+    if case.get("family") == "awaitifyreuse":
+        return fam_awaitify_reuse.judge(case, obs, model)
     if case.get("family") == "reuse":
         if len({json.dumps(o) for o in obs["outs"]}) != 1 or obs["outs"][0][0] != "ok":
             issues.append(Issue("oracle", {"outs": obs["outs"], "order": case["order"]},
@@ -469,6 +478,8 @@ def judge(case, obs, model):
 
 
 def features(case, obs):
+    if case.get("family") == "awaitifyreuse":
+        return fam_awaitify_reuse.features(case, obs)
     if case.get("family") == "types":
         return ["types"]
     if case.get("family") in ("groupby", "exitstack"):
@@ -481,7 +492,7 @@ def features(case, obs):
 
 
 def nontrivial(case, obs):
-    return case.get("family") in ("types", "groupby", "awaitify", "exitstack", "reuse") or bool(obs["base"][0]) or obs["base"][1][0] in ("returned", "raised")
+    return case.get("family") in ("types", "groupby", "awaitify", "exitstack", "reuse", "awaitifyreuse") or bool(obs["base"][0]) or obs["base"][1][0] in ("returned", "raised")
 
 
 def search_cases(broken, rng):
